@@ -31,9 +31,14 @@ static const char *const fmts[] = {
 	"",	    /* a message whose text is empty */
 	"%s",	    /* ... or may be empty, depending on its argument; no trailing newline */
 	"no newline %lu",
+	"[%*lu] rc=%lu;\n",	 /* a '*' width: three arguments for two conversions */
+	"%*.*lu;\n",		 /* width and precision from the argument list */
+	"%lu%% done, %lu left;\n", /* a literal percent sign in the text */
+	"note: %s (%lu)\n",	 /* ... or one that arrives through a string argument */
 };
 #define NFMT (sizeof(fmts) / sizeof(fmts[0]))
 static const char *const words[] = { "alpha", "beta", "gamma", "", "a longer string with spaces" };
+static const char *const pct_words[] = { "100%", "50% of %lu", "%%", "a % b", "plain" };
 
 typedef struct {
 	uint8_t fmt;
@@ -87,6 +92,20 @@ static msg_t gen_msg(vh_rng_t *r, uint64_t serial)
 		m.a[0] = (uintptr_t)words[vh_below(r, 5)];
 		m.a[1] = serial;
 	}
+	if (m.fmt == 12) { /* "[%*lu] rc=%lu;" */
+		m.a[0] = 1 + vh_below(r, 12);
+		m.a[1] = serial;
+		m.a[2] = vh_below(r, 1000);
+	}
+	if (m.fmt == 13) { /* "%*.*lu;" */
+		m.a[0] = 1 + vh_below(r, 12);
+		m.a[1] = vh_below(r, 8);
+		m.a[2] = serial % 100000;
+	}
+	if (m.fmt == 15) {
+		m.a[0] = (uintptr_t)pct_words[vh_below(r, 5)];
+		m.a[1] = serial;
+	}
 	if (m.fmt == 10)
 		m.a[0] = (uintptr_t)words[vh_below(r, 2) ? 3 : vh_below(r, 5)];
 	if (m.fmt == 8) {
@@ -106,6 +125,10 @@ static void do_log(const msg_t *m, int nice)
 #pragma GCC diagnostic ignored "-Wformat-extra-args"
 	if (m->fmt == 9 || (m->fmt == 10 && !*(const char *)m->a[0]))
 		VH_COUNT("messages_with_empty_text");
+	if (m->fmt == 12 || m->fmt == 13)
+		VH_COUNT("messages_with_star_width_or_precision");
+	if (m->fmt == 14 || (m->fmt == 15 && strchr((const char *)m->a[0], '%')))
+		VH_COUNT("messages_with_percent_sign_in_text");
 	if (nice)
 		mlog_nice(fmts[m->fmt], m->a[0], m->a[1], m->a[2]);
 	else
